@@ -11,7 +11,7 @@
 EXTENDS MxjPath, Json
 CONSTANTS Branch, DoEmit
 VARIABLE m
-Chain == <<"a", "b", "c", "d">>
+Chain == <<"a", "b~", "c", "d">>       \* (~ stands for a two-byte rune: key names are not ASCII only)
 SV(tag) == VS("v" \o ToString(tag))
 \* every level a list of b maps
 RECURSIVE LevelL(_, _, _)
